@@ -121,6 +121,12 @@ class SymCtx(BaseCtx):
             t = D.d(t, x, r)
         return SymReal(t)
 
+    def dlog(self, f, x):
+        """logarithmic derivative (d f/dx)/f, computed structurally (power-law factors drop out)"""
+        v = f(self) if callable(f) else f
+        r = {k: dv[x] for k, dv in self.rules.items() if x in dv}
+        return SymReal(D.logd(term_of(v), x, r))
+
     def sqrt(self, v):
         return SymReal(T.pw(term_of(v), T.HALF))
 
@@ -188,6 +194,9 @@ class NumCtx(BaseCtx):
         a2 = cd(h / 2)
         r = (4 * a2 - a1) / 3
         return float(r) if np.ndim(r) == 0 else r
+
+    def dlog(self, f, x):
+        return self.d(f, x) / f(self)
 
     def sqrt(self, v):
         return math.sqrt(v)
